@@ -74,6 +74,21 @@ fn lattice() -> Vec<String> {
 pub fn value_interaction_inputs() -> Vec<String> {
     let mut out = vec![];
     let lat = lattice();
+    // letters that are no unit of the keyword (weeks, years, upper-case spellings, doubled units)
+    for kw in VOCAB {
+        let bad: &[&str] = match kw.args {
+            [ArgKind::SizeCmp] => &["w2", "K", "B", "kk", "P", "E", "y"],
+            [ArgKind::TimeCmpMin] | [ArgKind::TimeCmpDay] => &["w", "y", "D", "H", "M", "S", "ms", "dd"],
+            [ArgKind::U32Cmp] | [ArgKind::U64Cmp] | [ArgKind::U32] => &["k", "d", "u", "L"],
+            _ => continue,
+        };
+        for n in &lat {
+            for u in bad {
+                out.push(format!("{} {n}{u}", kw.word));
+                out.push(format!("{} +{n}{u} -print", kw.word));
+            }
+        }
+    }
     for kw in VOCAB.iter().filter(|k| k.args == [ArgKind::Str]) {
         for n in &lat {
             out.push(format!("{} {n}", kw.word));
